@@ -80,7 +80,7 @@ def nestle_double(result=None):
     return ns
 
 
-def make_model(coef, const, limit=None, names=('a', 'b', 'c')):
+def make_model(coef, const, limit=None, names=('a', 'b', 'c'), bounds=None):
     """ForwardModel double built with the real Fittable machinery: native spectrum_j = sum_k p_k*coef[k][j] + const[j];
     raises InvalidModelException when p_0 > limit (a symbolic validity condition)."""
     from taurex.model import ForwardModel
@@ -106,7 +106,8 @@ def make_model(coef, const, limit=None, names=('a', 'b', 'c')):
 
                 def fset(s, v, k=k):
                     s.p[k] = v
-                self.add_fittable_param(names[k], names[k], fget, fset, modes[k], fits[k], [0.5 + k, 5.0 + k])
+                self.add_fittable_param(names[k], names[k], fget, fset, modes[k], fits[k],
+                                        bounds[k] if bounds is not None else [0.5 + k, 5.0 + k])
 
             def dget(s):
                 return s.p[0] + s.p[-1]
